@@ -160,7 +160,8 @@ PROPS["C16"] = {
                     "in-flight = attempted after the last acknowledgement of that id"],
     "units": [U("TestVerif_C16_KillCycles", "./pkg/db", R(12, shards=4, shrinktime="20s", timeout=600), R(500, shards=16, shrinktime="60s", timeout=1800), replay_tries=3),
               U("TestVerif_C16_CrashDuringOpen", "./pkg/db", PLAIN, PLAIN, kind="plain"),
-              U("TestVerif_C16_BackToBackKills", "./pkg/db", PLAIN, PLAIN, kind="plain", replay_tries=3)],
+              U("TestVerif_C16_BackToBackKills", "./pkg/db", PLAIN, PLAIN, kind="plain", replay_tries=3),
+              U("TestVerif_C16_ManyCycles", "./pkg/db", PLAIN, PLAIN, kind="plain", replay_tries=2)],
 }
 
 GD = "./cmd/guardiand"
@@ -226,6 +227,10 @@ PROPS["C19"] = {
 PROPS["C07"]["units"].append(U("TestVerif_C07_ExplorerQuorum", "./processor", PLAIN, PLAIN, kind="plain", module=EX))
 PROPS["C07"]["units"].append(U("TestVerif_C07_ExplorerThreshold", "./processor", PLAIN, PLAIN, kind="plain", module=EX))
 PROPS["C06"]["units"].append(U("TestVerif_C06_ExplorerVerify", "./processor", R(1500), R(60000, shards=16, timeout=1500), module=EX))
+# C17 is anchored in cleanup.go as well (the processor posts its re-observation requests to the outbound queue from
+# the cleanup pass, which must not stall on a full queue): the C14 schedule unit, whose cases include full request
+# queues of capacity 0..2, runs under C17 too
+PROPS["C17"]["units"].append(U("TestVerif_C14_Schedule", PROC, R(1500), R(30000, shards=16, timeout=1500), replay_tries=3, replay_repeat=3))
 # C06 is anchored in observation.go as well (where the node applies the verification to gossip): the processor units
 # of C01 and C03 run under C06 too, with smaller budgets
 PROPS["C06"]["units"].append(U("TestVerif_C01_Safety", PROC, R(800), R(20000, shards=16, timeout=1500)))
